@@ -101,6 +101,10 @@ pub struct Case {
     pub holder_first: bool,
     pub extra_output: bool,
     pub cp_zero: bool,
+    /// the proposal hands the holder's share to the other side: no holder output at all and the
+    /// counterparty output carries (almost) the whole channel value
+    #[serde(default)]
+    pub cp_takes_holder_share: bool,
 }
 
 fn delta_strat() -> impl Strategy<Value = Delta> {
@@ -166,7 +170,7 @@ impl Prop for C07 {
         ]
     }
     fn cases(&self, tier: Tier) -> u32 {
-        tier.pick(400, 8000)
+        tier.pick(1500, 60_000)
     }
     fn min_nontrivial(&self, tier: Tier) -> usize {
         tier.pick(150, 1000)
@@ -176,11 +180,11 @@ impl Prop for C07 {
             (any::<bool>(), any::<bool>(), prop_oneof![3 => Just(Upfront::None), 1 => Just(Upfront::Wallet), 1 => Just(Upfront::Allowlisted)], delta_strat(), any::<bool>()),
             (prop::bool::weighted(0.12), prop::bool::weighted(0.12), prop::bool::weighted(0.04), prop::bool::weighted(0.04), prop::bool::weighted(0.2)),
             (any::<bool>(), kind_strat(), prop::bool::weighted(0.8), delta_strat(), any::<bool>()),
-            (prop_oneof![1 => Just(RateSel::MinMinus3), 2 => Just(RateSel::Min), 5 => Just(RateSel::Mid), 2 => Just(RateSel::Max), 1 => Just(RateSel::MaxPlus3), 1 => Just(RateSel::Zero)], any::<bool>(), prop::bool::weighted(0.08), prop::bool::weighted(0.1)),
+            (prop_oneof![1 => Just(RateSel::MinMinus3), 2 => Just(RateSel::Min), 5 => Just(RateSel::Mid), 2 => Just(RateSel::Max), 1 => Just(RateSel::MaxPlus3), 1 => Just(RateSel::Zero)], any::<bool>(), prop::bool::weighted(0.08), prop::bool::weighted(0.1), prop::bool::weighted(0.12)),
         )
-            .prop_map(|((anchors, outbound, upfront, view_delta, view_delta_neg), (htlc_in_holder, htlc_in_cp, mh, mc, remove_allowlisted), (phase1, holder_script, hseu, prop_delta, prop_delta_neg), (rate, holder_first, extra_output, cp_zero))| Case {
+            .prop_map(|((anchors, outbound, upfront, view_delta, view_delta_neg), (htlc_in_holder, htlc_in_cp, mh, mc, remove_allowlisted), (phase1, holder_script, hseu, prop_delta, prop_delta_neg), (rate, holder_first, extra_output, cp_zero, cp_takes_holder_share))| Case {
                 anchors, outbound, upfront, view_delta, view_delta_neg, htlc_in_holder, htlc_in_cp, missing_holder_commitment: mh, missing_cp_commitment: mc, remove_allowlisted,
-                phase1, holder_script, holder_script_equals_upfront: hseu, prop_delta, prop_delta_neg, rate, holder_first, extra_output, cp_zero,
+                phase1, holder_script, holder_script_equals_upfront: hseu, prop_delta, prop_delta_neg, rate, holder_first, extra_output, cp_zero, cp_takes_holder_share,
             })
             .boxed()
     }
@@ -325,6 +329,12 @@ impl Prop for C07 {
             let h = ((VALUE - BASE_CP) as i64 + pd).max(0) as u64;
             (h, VALUE.saturating_sub(h).saturating_sub(fee))
         };
+        if case.cp_takes_holder_share {
+            // everything but the fee goes to the counterparty
+            to_c = VALUE.saturating_sub(fee);
+            to_h = 0;
+            st.class("proposal:counterparty-takes-holder-share");
+        }
         if hscript.is_none() {
             to_h = 0;
         }
